@@ -210,7 +210,7 @@ class Module:
         if v.t not in (INT, INTS):
             raise TranslationError("%s: module constant %r has unsupported type %s" % (where, name, v.t))
         text = "/-- module constant, line %d: `%s` -/\ndef %s : %s := %s" % (
-            node.lineno, self.segment(node).replace("\n", " ").replace("-/", "- /"), lname(name), v.t, v.s)
+            node.lineno, self.segment(node).replace("\n", " ").replace("-/", "- /").replace("/-", "/ -"), lname(name), v.t, v.s)
         out = V(lname(name), v.t, v.lo, v.hi, v.n, (), v.elo, v.ehi)
         self.consts[name] = (text, out)
         self.const_order.append(name)
@@ -1574,7 +1574,7 @@ def translate_function(mod, spec):
         monadic = True
     rt = fn.ltype(fn.rettype)
     rett = "R (%s)" % rt if monadic else rt
-    src = mod.segment(node).replace("-/", "- /")
+    src = mod.segment(node).replace("-/", "- /").replace("/-", "/ -")
     doc = "/-- `%s` of %s, lines %d-%d — %s.\n" % (spec["func"], mod.relpath, node.lineno, node.end_lineno, how)
     for nt in dict.fromkeys(fn.notes):
         doc += "    note: %s\n" % nt
